@@ -429,6 +429,21 @@ func RunJobScenario(sc *Scenario) (vd *Verdict) {
 				fail(v, i)
 				return
 			}
+		case "recreateSink":
+			// the sink dataset is deleted and created again between two runs; the job stays configured
+			cfg := r.jobs[op.S]
+			name := sinkName(cfg)
+			if err := r.H.Dsm.DeleteDataset(name); err != nil {
+				fail(viol(sc.Property, "harness", "invalid", "delete sink: %v", err), i)
+				return
+			}
+			time.Sleep(time.Nanosecond)
+			if _, err := r.H.Dsm.CreateDataset(name, nil); err != nil {
+				fail(viol(sc.Property, "harness", "invalid", "re-create sink: %v", err), i)
+				return
+			}
+			r.Stats["sink_recreated"]++
+			r.ev("recreateSink")
 		case "tick":
 			if v := r.tickOp(op, i); v != nil {
 				fail(v, i)
@@ -508,7 +523,15 @@ func (r *JobRun) runOp(op *Op, i int) *Violation {
 	before := r.sinkFeedLen(r.H, cfg)
 	srcCommits := r.Stats["commits"]
 	r.installFaults(id, spec)
-	started, ended, err := r.H.RunJobToEnd(id, jobType, 2*time.Hour)
+	var started, ended bool
+	var err error
+	if r.Sc.Knob("viaTrigger", 0) == 1 {
+		// the job's own cron trigger starts the run (scenarios with this knob have one unpaused job, "@every 10m")
+		started, ended = true, r.H.RunJobByTrigger(2*time.Hour)
+		r.Stats["runs_by_trigger"]++
+	} else {
+		started, ended, err = r.H.RunJobToEnd(id, jobType, 2*time.Hour)
+	}
 	r.clearFaults()
 	if err != nil || !started {
 		return viol(prop, "job-run", "run-rejected", "RunJob(%s,%s): %v", id, jobType, err)
@@ -552,7 +575,13 @@ func (r *JobRun) runOp(op *Op, i int) *Violation {
 		if op.N == 1 {
 			n1 := r.sinkFeedLen(r.H, cfg)
 			r.installFaults(id, map[string]any{})
-			_, ended, err := r.H.RunJobToEnd(id, jobType, 2*time.Hour)
+			var ended bool
+			var err error
+			if r.Sc.Knob("viaTrigger", 0) == 1 {
+				ended = r.H.RunJobByTrigger(2 * time.Hour)
+			} else {
+				_, ended, err = r.H.RunJobToEnd(id, jobType, 2*time.Hour)
+			}
 			r.clearFaults()
 			if err != nil || !ended {
 				return viol(prop, "job-run", "rerun-failed", "second run: %v ended=%v", err, ended)
